@@ -21,6 +21,12 @@ def plan(tier, seed):
     q = tier == "quick"
     n_inputs = 7 if q else 40
     specs = []
+    # wide problems (N*W around 200) with the linear-algebra library left multi-threaded, as on a user's machine: worker processes
+    # whose numerical environment differs from the parent's only show at sizes where the library splits its work (started first:
+    # they are the slowest shards of this check on a loaded machine)
+    for p in range(1 if q else 3):
+        specs.append(dict(name="wide-%d" % p, mode="interp", role="wide", part=p, seed=seed, nconf=2 if q else 4, timeout=900 if q else 3400,
+                          env={"OPENBLAS_NUM_THREADS": 8, "OMP_NUM_THREADS": 8, "MKL_NUM_THREADS": 8}))
     modes = ["interp"] if q else ["interp", "interp", "interp", "jit"]
     for i in range(n_inputs):
         mode = modes[i % len(modes)]
@@ -30,6 +36,37 @@ def plan(tier, seed):
     for p in range(2 if q else 6):
         specs.append(dict(name="entry-%d" % p, mode="interp", role="entry", part=p, seed=seed, n=20 if q else 80))
     return specs
+
+
+def run_wide(spec, res):
+    rng = np.random.default_rng([spec["seed"], 1415, spec["part"]])
+    N, W = [(4, 50), (6, 34), (10, 20), (3, 70)][int(rng.integers(0, 4))]
+    case = dict(front="single", data=dict(gen="regime", seed=int(rng.integers(0, 2 ** 31)), T=130 + 3 * W, N=N, n_reg=2, seg=40, scale=1.0, flavor="plain"),
+                W=W, K=2, beta=dict(form="float", value=5.0), lam=dict(form="float", value=float(rng.choice([0.11, 0.3]))), m=2, limit=1,
+                biased=True, eps=0.0, nproc=1, mp=False, rng_seed=1, init=dict(kind="blocks"))
+    confs = [dict(name="np1-mp", nproc=1, mp=True), dict(name="np4-mp", nproc=4, mp=True), dict(name="np1-sp", nproc=1, mp=False),
+             dict(name="np8-mp", nproc=8, mp=True)][:spec["nconf"]]
+    digests = {}
+    for conf in confs:
+        d, perms, run = run_config(case, conf, res)
+        res.evaluations += 1
+        digests[conf["name"]] = d
+        if d.startswith("EXC:"):
+            res.skipped(d)
+        else:
+            res.count("wide_runs_with_multithreaded_linear_algebra")
+        res.maxi("forks", instrument_forks())
+    res.note("wide_shapes", [N, W])
+    ok = {k: v for k, v in digests.items() if not v.startswith("EXC:")}
+    names = sorted(ok)
+    for a in names[1:]:
+        res.count("wide_pairs_compared")
+        if ok[a] != ok[names[0]]:
+            res.violation("wide problem (N=%d, W=%d, linear-algebra library multi-threaded): configurations %s and %s return different results (%s vs %s)"
+                          % (N, W, names[0], a, ok[names[0]][:16], ok[a][:16]),
+                          dict(case=case, confs=[c for c in confs if c["name"] in (names[0], a)], env=spec.get("env")))
+    res.nontriv("wide-%d-%dx%d" % (spec["part"], N, W))
+    res.sample(dict(role="wide", case=case, digests=digests))
 
 
 def make_input(seed, i):
@@ -152,6 +189,9 @@ def run_entry(spec, res):
 def run_shard(spec, res):
     if spec.get("role") == "entry":
         run_entry(spec, res)
+        return
+    if spec.get("role") == "wide":
+        run_wide(spec, res)
         return
     seed, i = spec["seed"], spec["input"]
     case = make_input(seed, i)
@@ -294,6 +334,8 @@ def finalize(merged, tier):
         out["inconclusive"].append("no compared configuration was preceded by a call with a large matrix size")
     if merged["counters"].get("entry_point_repeat_comparisons", 0) < (30 if tier == "quick" else 300):
         out["inconclusive"].append("entry-point history comparisons: %d" % merged["counters"].get("entry_point_repeat_comparisons", 0))
+    if merged["counters"].get("wide_pairs_compared", 0) < 1:
+        out["inconclusive"].append("no pair of configurations was compared on a wide problem with the linear-algebra library multi-threaded")
     if compared < (40 if tier == "quick" else 400):
         out["inconclusive"].append("only %d digests compared" % compared)
     return out
